@@ -247,6 +247,7 @@ func newVC(e *Engine, root string) *VC {
 func (e *Engine) verifyFunc(fn *ssa.Function, con *Contract) *VC {
 	key := funcKey(fn)
 	vc := newVC(e, key)
+	vc.topFn = fn
 	if con != nil && con.Flags["safety_off"] {
 		vc.safetyOff = true
 		vc.note("safety_off: panic-freedom of this function and preconditions of its callees are not checked; callee postconditions are not used")
@@ -341,6 +342,26 @@ func (e *Engine) verifyFunc(fn *ssa.Function, con *Contract) *VC {
 					continue
 				}
 				vc.oblige(r.st, "ensures", fmt.Sprintf("%s#ensures%d@%s", key, i+1, site), "postcondition: "+en.Src, e.fset.Position(r.pos), t)
+			}
+		}
+		if con.Flags["lockbalance"] {
+			// every mutex acquired by the function is released again on every return path
+			for _, r := range vc.topRets {
+				var leaked []string
+				for l, m := range r.st.locks {
+					if _, atEntry := entry.locks[l]; !atEntry && m != 0 {
+						leaked = append(leaked, l)
+					}
+				}
+				sort.Strings(leaked)
+				site := e.lineText(e.fset.Position(r.pos))
+				goal := "true"
+				desc := "all mutexes acquired here are released on this return path"
+				if len(leaked) > 0 {
+					goal = "false"
+					desc = "return path leaves mutex locked: " + strings.Join(leaked, ", ")
+				}
+				vc.oblige(r.st, "ensures", fmt.Sprintf("%s#lockbalance@%s", key, site), desc, e.fset.Position(r.pos), goal)
 			}
 		}
 		for i, cl := range con.Asserts {
